@@ -540,7 +540,11 @@ def replay_job(job, lane=0):
         out = res.get("dev_output", "") + res.get("release_output", "")
         for c in job.fail_checks:
             d = c.get("description", "")
-            if c.get("category") != "assertion" or (d and d[:60] in out):
+            loc = c.get("location", {})
+            where = "%s:%s:" % (os.path.basename(loc.get("file", "?")), loc.get("line", "?"))
+            # same assertion text, or a panic at the same source line (assert_eq!, unwrap and
+            # index panics word their messages differently from CBMC's check descriptions)
+            if c.get("category") != "assertion" or (d and d[:60] in out) or where in out:
                 return path, True
         return path, False
     if all(v == "passes" for k, v in res.items() if not k.endswith("_output")):
